@@ -411,6 +411,8 @@ type FuncContract struct {
 	Decreases *Clause
 	AllocBound *Clause // allocations may also be as large as this expression (data the caller handed in)
 	UnboundedAlloc bool // (specs) the function allocates memory proportional to its input (io.ReadAll, os.ReadFile, ...)
+	Validator        bool // the function's purpose is to reject (ExpectTag ...): its failure is a legitimate cause for callers marked errors_propagated
+	ErrorsPropagated bool // every non-nil error returned is the (possibly wrapped) failure of a call made on that path
 	Constructor bool // runs in the single-threaded configuration phase (Provision): may initialise immutable fields
 	NoGlobals bool   // the function must not read mutable package-level variables (state shared between instances)
 	LastCall  string // higher-order summary: the function's outcome is that of the last call of this func-typed parameter
@@ -494,7 +496,7 @@ func (cs *Contracts) ParseContractFile(path string, pkgName string, isSpec bool)
 		line int
 	}
 	var lines []lline
-	heads := []string{"func ", "type ", "spec ", "dead ", "axiom ", "lemma ", "global ", "props ", "arith ", "requires", "ensures", "trusted_ensures", "assigns", "loop ", "pure", "trusted", "trustframe", "noglobals", "constructor", "unbounded_alloc", "noinline", "fresh ", "note ", "assert", "invariant ", "invariant[", "guarded_by ", "owns ", "immutable", "decreases ", "ghost ", "lastcall ", "allocbound "}
+	heads := []string{"func ", "type ", "spec ", "dead ", "axiom ", "lemma ", "global ", "props ", "arith ", "requires", "ensures", "trusted_ensures", "assigns", "loop ", "pure", "trusted", "trustframe", "noglobals", "validator", "errors_propagated", "constructor", "unbounded_alloc", "noinline", "fresh ", "note ", "assert", "invariant ", "invariant[", "guarded_by ", "owns ", "immutable", "decreases ", "ghost ", "lastcall ", "allocbound "}
 	for i, raw := range strings.Split(string(data), "\n") {
 		s := strings.TrimSpace(raw)
 		if !strings.HasPrefix(s, "//@") {
@@ -703,6 +705,10 @@ func (cs *Contracts) ParseContractFile(path string, pkgName string, isSpec bool)
 			curF.Pure = true
 		case s == "trusted":
 			curF.Trusted = true
+		case s == "validator":
+			curF.Validator = true
+		case s == "errors_propagated":
+			curF.ErrorsPropagated = true
 		case s == "constructor":
 			curF.Constructor = true
 		case s == "unbounded_alloc":
